@@ -392,6 +392,9 @@ def confirm (s : State) (k : Kind) (n e b : Nat) (sigOk : Bool) : State × Res :
 
 /-- effect of an executed `MsgOracleSetUpdatedClaim` for a stored oracle set (`UpdateOracleSetExecuted`) -/
 def observe (s : State) (n : Nat) : State × Res :=
+  -- nonce 0 is not checked against the store; the claim of the harness carries no members, the stored record is the empty
+  -- byte string, which `GetLastObservedOracleSet` reads back as "none"
+  if n == 0 then ({ s with lastObserved := none }, .ok) else
   if s.osets.any (·.nonce == n) then ({ s with lastObserved := some n }, .ok) else (s, .err "no-object")
 
 /-- validator slashed by fraction `num/den` at the current height (floor arithmetic; exactness is not claimed) -/
@@ -475,9 +478,18 @@ def slashing (s : State) (h : Nat) : Except String State :=
       | .error e => .error e
       | .ok (s3, c) => .ok (if a || b || c then refreshPower s3 else s3)
 
+/-- which online oracles `GetCurrentOracleSet` keeps (regenerated skip condition; powers are naturals here, so "negative"
+never applies and `.negative` / `.none` keep zero-power oracles in) -/
+def keptMember (m : Nat × Nat) : Bool :=
+  match currentSetSkip with
+  | .nonPositive => m.2 > 0
+  | .negative => true
+  | .none => true
+  | .other => true
+
 /-- `GetCurrentOracleSet`: `power.Uint64()` and the `uint64` total are the arithmetic sites of the end-blocker -/
 def currentMembers (s : State) : Except String (List (Nat × Nat)) :=
-  let ps := ((onlineOracles s).map (fun o => (o.ext, power s.p o))).filter (fun m => m.2 > 0)
+  let ps := ((onlineOracles s).map (fun o => (o.ext, power s.p o))).filter keptMember
   if ps.any (fun m => m.2 ≥ u64) then .error "GetCurrentOracleSet:power.Uint64()" else
   let total := (ps.map (·.2)).sum % u64
   if !ps.isEmpty && total == 0 then .error "GetCurrentOracleSet:QuoUint64(totalPower)" else
@@ -541,13 +553,14 @@ def createOracleSetRequest (s : State) (h : Nat) : Except String State :=
         .ok (refreshPower { s with osets := s.osets ++ [⟨s.latestNonce + 1, h, cur⟩], latestNonce := s.latestNonce + 1 })
       else .ok s
 
-/-- `pruneOracleSet` -/
+/-- `pruneOracleSet` (comparisons regenerated; `currentBlock - window` is `uint64` arithmetic and wraps) -/
 def pruneOracleSet (s : State) (h : Nat) : State :=
   match s.lastObserved with
   | none => s
   | some n =>
-    if h < s.p.window then s else
-    let gone := fun (x : OSet) => (h - s.p.window > x.height) && (n > x.nonce)
+    if pruneGuarded && evalCmp pruneTooEarlyCmp h s.p.window then s else
+    let earliest := if h ≥ s.p.window then h - s.p.window else h + u64 - s.p.window
+    let gone := fun (x : OSet) => evalCmp pruneHeightCmp earliest x.height && evalCmp pruneNonceCmp n x.nonce
     { s with osets := s.osets.filter (fun x => !gone x),
              osConf := s.osConf.filter (fun c => !(s.osets.any (fun x => gone x && x.nonce == c.nonce))) }
 
